@@ -50,6 +50,11 @@ var verMods = []Op{
 
 var verSetups = [][]Op{
 	{{Op: "Sign", A: "k1"}},
+	// a header with exactly one kind of entry when it is signed
+	{{Op: "SetNotes", A: "n1"}, {Op: "Sign", A: "k1"}},
+	{{Op: "AddTag", A: "t1"}, {Op: "Sign", A: "k1"}},
+	{{Op: "SetMeta", A: "m1", B: "a"}, {Op: "Sign", A: "k1"}},
+	{{Op: "AddLink", A: "l1", B: "x"}, {Op: "Sign", A: "k1"}},
 	// a stamp sealed by a second signature: later changes of the header are judged against both signed headers
 	{{Op: "Sign", A: "k1"}, {Op: "AddStamp", A: "p1", B: "a"}, {Op: "Sign", A: "k1"}},
 	// signed after 1, 3 or 5 benign edits: the next edit then leads to a text an encoder easily confuses with the signed one
